@@ -27,10 +27,18 @@ import (
 	"dsim/instr"
 )
 
-const (
-	verifDir = "/verif"
-	repoDir  = "/repo"
-)
+const repoDir = "/repo"
+
+// verifDir is the directory the command is run from (/verif for registered
+// commands; a snapshot of it for background runs).
+var verifDir = func() string {
+	if d, err := os.Getwd(); err == nil {
+		if _, err := os.Stat(filepath.Join(d, "dsim", "go.mod")); err == nil {
+			return d
+		}
+	}
+	return "/verif"
+}()
 
 type planEntry struct {
 	Scenario string
@@ -109,7 +117,7 @@ func fatal2(format string, a ...any) {
 
 func goEnv() []string {
 	env := os.Environ()
-	env = append(env, "GOFLAGS=-mod=mod", "GOPROXY=off", "GOSUMDB=off", "GOTOOLCHAIN=local", "GOCACHE="+verifDir+"/.gocache")
+	env = append(env, "GOFLAGS=-mod=mod", "GOPROXY=off", "GOSUMDB=off", "GOTOOLCHAIN=local", "GOCACHE=/verif/.gocache")
 	return env
 }
 
@@ -459,7 +467,8 @@ func replay(args []string) int {
 	if err := json.Unmarshal(b, &rf); err != nil {
 		fatal2("replay: %v", err)
 	}
-	work := filepath.Join(verifDir, ".work", "replay-"+rf.Property)
+	work := filepath.Join(verifDir, ".work", fmt.Sprintf("replay-%s-%d", rf.Property, os.Getpid()))
+	defer os.RemoveAll(work)
 	bin, _ := build(work)
 	r, frame, se := replayOnce(bin, work, &rf, "cmd")
 	want := ""
@@ -501,7 +510,7 @@ type found struct {
 	count   int
 }
 
-var outDir = verifDir
+var outDir = ""
 
 func check(args []string) int {
 	t0 := time.Now()
@@ -540,12 +549,16 @@ func check(args []string) int {
 			outDir = args[i]
 		}
 	}
+	if outDir == "" {
+		outDir = verifDir
+	}
 	plan, ok := plans[prop]
 	if !ok {
 		fatal2("no plan for property %s", prop)
 	}
-	work := filepath.Join(verifDir, ".work", prop)
+	work := filepath.Join(verifDir, ".work", fmt.Sprintf("%s-%d", prop, os.Getpid()))
 	os.RemoveAll(work)
+	defer os.RemoveAll(work)
 	bin, ist := build(work)
 	tBuild := time.Since(t0)
 
